@@ -71,7 +71,9 @@ class AbstractBenchParser(AbstractParser, metaclass=abc.ABCMeta):
 
     def _process_line(self, line: str) -> tp.Iterable:
         logger.debug(f'Parsing line: "{line}"')
-        if line == '' or line == '\n' or line[0] == '#':
+        # a comment runs from `#` to the end of the line
+        line = line.split('#', 1)[0].strip()
+        if line == '':
             # Empty or comment line
             return []
         elif line.upper().startswith('INPUT('):
